@@ -31,27 +31,35 @@ OWNED = {
     ("utype.parser.func:FunctionParser.get_params", "args"): "the wrapper's own *args tuple",
     ("utype.parser.cls:ClassParser.set_attributes", "values"): "the result mapping built by the parser for this call",
 }
-# state writes that outlive a call and are semantically transparent: (function ref, attribute) -> reason
-TRANSPARENT = {
-    ("utype.parser.base:BaseParser.apply_for", "__parsers__"): "memo of parsers keyed by the declaration itself",
-    ("utype.parser.base:BaseParser.resolve_forward_refs", "forward_refs"): "lazy resolution of declared references (idempotent)",
-    ("utype.parser.base:BaseParser._resolve_forward_refs", "__forward_value__"): "lazy resolution of declared references",
-    ("utype.parser.base:BaseParser._resolve_forward_refs", "__forward_evaluated__"): "reset of function-scoped references after resolution",
-    ("utype.parser.base:BaseParser.resolve_forward_types", "addition_type"): "lazy resolution of the declared addition type",
-    ("utype.parser.func:FunctionParser.resolve_forward_types", "position_type"): "lazy resolution of the declared *args type",
-    ("utype.parser.func:FunctionParser.resolve_forward_types", "return_type"): "lazy resolution of the declared return type",
-    ("utype.parser.field:ParserField.resolve_forward_refs", "type"): "lazy resolution of the declared field type",
-    ("utype.parser.field:ParserField.resolve_forward_refs", "output_type"): "lazy resolution of the declared output type",
-    ("utype.parser.rule:LogicalType.resolve_forward_refs", "__args__"): "lazy resolution of declared type arguments",
-    ("utype.parser.rule:LogicalType.register_forward_refs", "__args__"): "registration of nested references while resolving",
-    ("utype.parser.rule:Rule.resolve_forward_refs", "__args__"): "lazy resolution of declared type arguments",
-    ("utype.parser.rule:Rule.resolve_forward_refs", "__arg_transformers__"): "converters of the resolved arguments",
-    ("utype.parser.rule:register_forward_ref", "__forward_value__"): "function-scoped reference reset (force_clear)",
-    ("utype.parser.rule:register_forward_ref", "__forward_evaluated__"): "function-scoped reference reset (force_clear)",
-    ("utype.parser.rule:register_forward_ref", "forward_refs"): "pending table of nested references",
-    ("utype.utils.base:TypeRegistry.resolve", "_cache"): "memo of a pure function of the registrations (reset by register)",
-    ("utype.utils.datastructures:cached_property.__get__", "__dict__"): "memo of a pure property",
+# state that outlives a call and is semantically transparent, keyed by the state itself (not by function names).
+# (a) lazily resolved declaration state: idempotent, allowed when the write is serialised by the first-use lock
+LAZY_RESOLUTION = {
+    "forward_refs": "pending-reference table of a parser (emptied once everything is resolved)",
+    "__forward_value__": "value of a declared reference", "__forward_evaluated__": "evaluated flag of a declared reference",
+    "type": "resolved field type", "output_type": "resolved field output type", "addition_type": "resolved addition type",
+    "position_type": "resolved *args type", "return_type": "resolved return type",
+    "__args__": "resolved type arguments of a rule / logical type", "__arg_transformers__": "converters of the resolved arguments",
 }
+# (b) memos of pure functions, keyed by (owner class or module, attribute)
+MEMOS = {
+    ("utype.parser.base", "__parsers__"): "memo of parsers keyed by the declaration itself",
+    ("TypeRegistry", "_cache"): "memo of a pure function of the registrations (reset by register)",
+    ("cached_property", "__dict__"): "memo of a pure property",
+}
+
+
+def transparent(run, cg, w, reach_cut) -> str:
+    c = c20.class_of(w.f)
+    if w.target == "<module>":
+        return MEMOS.get((w.f.module.name, w.attr), "")
+    if c is not None and (c.name, w.attr) in MEMOS:
+        return MEMOS[(c.name, w.attr)]
+    if w.attr in LAZY_RESOLUTION:
+        locked = c20.lexically_locked(w.f, w.node, cg.locks) or (w.stmt is not None and c20.lexically_locked(w.f, w.stmt, cg.locks)) \
+            or w.f.ref not in reach_cut
+        if locked:
+            return LAZY_RESOLUTION[w.attr] + " (under the first-use lock)"
+    return ""
 
 
 def r19a(run):
@@ -164,22 +172,21 @@ def r19c(run):
     cg = callgraph(run.repo)
     ents = c20.entries(run)
     reach_all = cg.reachable(ents, cut_locked=False, cut_ctor=True)
+    reach_cut = cg.reachable(ents, cut_locked=True, cut_ctor=True)
     sw = c20.shared_writes(run, cg, reach_all)
     n = 0
     for w, kind, why in sw:
         if kind != "shared":
             continue
         n += 1
-        reason = TRANSPARENT.get((w.f.ref, w.attr))
-        run.check("R19c", w.f, f"`{w.text[:60]}` is an enumerated transparent memo", reason is not None,
+        reason = transparent(run, cg, w, reach_cut)
+        run.check("R19c", w.f, f"`{w.text[:60]}` is an enumerated transparent memo / lazy resolution", bool(reason),
                   construct=f"state carried across calls: {w.target}.{w.attr} ({w.how})",
-                  message=f"`{w.text}` writes {why} [{w.target}.{w.attr}] while parsing; it is not one of the "
-                          f"enumerated lazy-initialisation / memo writes",
+                  message=f"`{w.text}` writes {why} [{w.target}.{w.attr}] while parsing; it is neither lazily resolved "
+                          f"declaration state under the first-use lock nor one of the enumerated memos",
                   necessity="what a later parse returns (or how it fails) depends on which parses happened before",
-                  node=w.node, detail=reason or "")
+                  node=w.node, detail=reason)
     run.floor("R19c", "writes to state that outlives the call", n, 12)
-    stale = [k for k in TRANSPARENT if run.repo.maybe_func(*k[0].split(":")) is None]
-    run.notes.append(f"R19c: allow-list entries without a function on this tree: {len(stale)}")
 
 
 def r19d(run):
